@@ -124,6 +124,21 @@ Proof.
 Qed.
 Print Assumptions C05_output_bounds.
 
+(* answers to every command other than ping ('p'/'P') and data (hex digit) are small: the fragsize
+   probe reply is cut to the requested size <= 2047 out of buf[2048], the 'Z' echo is the query's own
+   <= 255 characters, everything else (VACK/VNAK/VFUL, BAD..., login reply, codec names) is shorter *)
+Theorem C05_handshake_answer_sizes :
+  forall (login : list N -> N -> list N) (unz : list N -> option (list N))
+         (c : cfg) (st : sstate) (now rnd : N) (q : hq) (dl : nat),
+  (length (h_name q) <= 255)%nat ->
+  let c0 := chr (firstn dl (h_name q)) 0 in
+  is_letter c0 112 = false ->
+  ((48 <=? c0) && (c0 <=? 57)) || ((97 <=? c0) && (c0 <=? 102)) || ((65 <=? c0) && (c0 <=? 70)) = false ->
+  Forall (fun o => match o with OAnswer _ _ _ data _ => (length data <= 2047)%nat | _ => True end)
+         (snd (handle_null_request login unz c st now rnd q dl)).
+Proof. intros login unz c st now rnd q dl Hq c0 Hp Hd. exact (hnr_small login unz c st now rnd q dl Hq Hp Hd). Qed.
+Print Assumptions C05_handshake_answer_sizes.
+
 (* parser side: the name dns_decode hands out fits q->name[256]; readname writes at most the 255
    bytes it is allowed into name[256]; domain_len < strlen(name) <= 255 < sizeof(in); a decoded
    payload (+ the NUL the decoder appends) fits unpacked[64K] resp. cmc[] *)
